@@ -76,6 +76,7 @@ type thread struct {
 	panicv  interface{}
 	stack   string
 	nops    int // operations completed so far (program position of straight-line threads)
+	s       *Sched
 }
 
 type vchan struct {
@@ -138,25 +139,44 @@ type Sched struct {
 	FireBudget int
 	TickBudget int
 	// results
-	Deadlock    string
-	Cycle       string
-	Panics      []string
-	Diverged    string
-	MaxPoints   int
-	Truncated   bool
-	extWaiters  int
-	setupT      *thread
-	KeyFn       func() string // optional: harness-visible state for the global state key
-	UseKeys     bool
-	setup       bool // deterministic, unrecorded scheduling (scenario set-up): other threads first, then the caller
-	idleAtEnd   []string
-	harnessLeft []string
+	Deadlock                      string
+	Cycle                         string
+	Panics                        []string
+	Diverged                      string
+	MaxPoints                     int
+	Truncated                     bool
+	extWaiters                    int
+	setupT                        *thread
+	KeyFn                         func() string // optional: harness-visible state for the global state key
+	UseKeys                       bool
+	setup                         bool // deterministic, unrecorded scheduling (scenario set-up): other threads first, then the caller
+	idleAtEnd                     []string
+	endArmed, endTickers, endLeft int
+	harnessLeft                   []string
 }
 
 var cur *Sched // the execution in progress (one at a time per process)
 
 // Cur returns the execution in progress.
 func Cur() *Sched { return cur }
+
+// mine returns the execution the calling goroutine belongs to. A thread of an execution that has already ended
+// (it was released so that it can unwind; its deferred functions may still call in here) must never touch the
+// execution in progress: it is terminated on the spot.
+func mine() *Sched {
+	v, ok := gids.Load(goid())
+	if !ok {
+		return cur
+	}
+	s := v.(*thread).s
+	s.mu.Lock()
+	fin := s.finished
+	s.mu.Unlock()
+	if fin {
+		runtime.Goexit()
+	}
+	return s
+}
 
 func chanKey(ch interface{}) uintptr { return reflect.ValueOf(ch).Pointer() }
 
@@ -200,16 +220,18 @@ func (s *Sched) vc(ch interface{}) (uintptr, *vchan) {
 // SetCap overrides the virtual capacity of a channel (scaled scenarios); Name gives it a readable name.
 func SetCap(ch interface{}, n int) {
 	k := chanKey(ch)
-	cur.capOv[k] = n
-	if c, ok := cur.chans[k]; ok {
+	s := mine()
+	s.capOv[k] = n
+	if c, ok := s.chans[k]; ok {
 		c.cap = n
 	}
 }
 
 func Name(ch interface{}, name string) {
 	k := chanKey(ch)
-	cur.names[k] = name
-	if c, ok := cur.chans[k]; ok {
+	s := mine()
+	s.names[k] = name
+	if c, ok := s.chans[k]; ok {
 		c.name = name
 	}
 }
@@ -708,7 +730,7 @@ func (s *Sched) self() *thread {
 }
 
 func (s *Sched) spawn(name string, f func(), service bool) *thread {
-	t := &thread{id: len(s.threads), name: fmt.Sprintf("T%d(%s)", len(s.threads), name), wake: make(chan struct{}, 1), service: service}
+	t := &thread{id: len(s.threads), name: fmt.Sprintf("T%d(%s)", len(s.threads), name), wake: make(chan struct{}, 1), service: service, s: s}
 	t.op = &op{kind: opStart}
 	s.threads = append(s.threads, t)
 	go func() {
@@ -782,6 +804,22 @@ func (s *Sched) endOfExecution() {
 	}
 	s.idleAtEnd = idle
 	s.harnessLeft = harness
+	// counted here, before the left-over threads are released to unwind (their deferred functions stop tickers)
+	for _, t := range s.timers {
+		if t.armed {
+			s.endArmed++
+		}
+	}
+	for _, t := range s.tickers {
+		if t.armed {
+			s.endTickers++
+		}
+	}
+	for _, t := range s.threads {
+		if t.state != tDone {
+			s.endLeft++
+		}
+	}
 	s.Cycle = s.waitCycle()
 	if len(blockedSend) > 0 && s.Diverged == "" && !s.Truncated {
 		all := append(append([]string{}, blockedSend...), harness...)
@@ -923,7 +961,7 @@ func base(n string) string {
 
 // Go starts a managed thread.
 func Go(name string, f func()) {
-	s := cur
+	s := mine()
 	s.mu.Lock()
 	s.spawn(name, f, true)
 	s.mu.Unlock()
@@ -932,14 +970,14 @@ func Go(name string, f func()) {
 
 // GoHarness starts a scenario thread (it must run to completion).
 func GoHarness(name string, f func()) {
-	s := cur
+	s := mine()
 	s.mu.Lock()
 	s.spawn(name, f, false)
 	s.mu.Unlock()
 }
 
 func Send[T any](ch chan<- T, v T) {
-	s := cur
+	s := mine()
 	k, _ := s.vc(ch)
 	s.point(&op{kind: opSend, ch: k, val: v, site: site()})
 }
@@ -950,7 +988,7 @@ func Recv1[T any](ch <-chan T) T {
 }
 
 func Recv2[T any](ch <-chan T) (T, bool) {
-	s := cur
+	s := mine()
 	k, _ := s.vc(ch)
 	o := s.point(&op{kind: opRecv, ch: k, site: site()})
 	var zero T
@@ -961,13 +999,13 @@ func Recv2[T any](ch <-chan T) (T, bool) {
 }
 
 func Close[T any](ch chan T) {
-	s := cur
+	s := mine()
 	k, _ := s.vc(ch)
 	s.point(&op{kind: opClose, ch: k, site: site()})
 }
 
 func Len[T any](ch chan T) int {
-	s := cur
+	s := mine()
 	s.mu.Lock()
 	defer s.mu.Unlock()
 	k, c := s.vc(ch)
@@ -978,7 +1016,7 @@ func Len[T any](ch chan T) int {
 }
 
 func Cap[T any](ch chan T) int {
-	s := cur
+	s := mine()
 	s.mu.Lock()
 	defer s.mu.Unlock()
 	k, c := s.vc(ch)
@@ -992,18 +1030,18 @@ func Cap[T any](ch chan T) int {
 type Case struct{ c selCase }
 
 func RecvCase[T any](ch <-chan T) Case {
-	k, _ := cur.vc(ch)
+	k, _ := mine().vc(ch)
 	return Case{selCase{send: false, ch: k}}
 }
 
 func SendCase[T any](ch chan<- T, v T) Case {
-	k, _ := cur.vc(ch)
+	k, _ := mine().vc(ch)
 	return Case{selCase{send: true, ch: k, val: v}}
 }
 
 // Select returns the index of the chosen case (-1: default), the received value and ok.
 func Select(hasDefault bool, cases ...Case) (int, interface{}, bool) {
-	s := cur
+	s := mine()
 	o := &op{kind: opSelect, def: hasDefault, site: site()}
 	for _, c := range cases {
 		o.cases = append(o.cases, c.c)
@@ -1022,7 +1060,7 @@ func As[T any](ch <-chan T, v interface{}) T {
 }
 
 func AfterFunc(d time.Duration, f func()) *Timer {
-	s := cur
+	s := mine()
 	s.mu.Lock()
 	t := &Timer{s: s, id: len(s.timers), armed: true, f: f, site: site()}
 	s.timers = append(s.timers, t)
@@ -1045,7 +1083,7 @@ func (t *Timer) Stop() bool {
 func (t *Timer) Armed() bool { t.s.mu.Lock(); defer t.s.mu.Unlock(); return t.armed }
 
 func NewTicker(d time.Duration) *Ticker {
-	s := cur
+	s := mine()
 	s.mu.Lock()
 	tk := &Ticker{C: make(chan time.Time, 1), s: s, id: len(s.tickers), armed: true}
 	s.tickers = append(s.tickers, tk)
@@ -1059,7 +1097,7 @@ func (t *Ticker) Stop() { t.s.mu.Lock(); t.armed = false; t.s.mu.Unlock() }
 // ExtBegin / ExtEnd bracket a call that blocks in the operating system (UDP read): the thread releases the
 // run token and is not schedulable until the call has returned, which only a harness action brings about.
 func ExtBegin() {
-	s := cur
+	s := mine()
 	t := s.self()
 	s.mu.Lock()
 	t.state = tExternal
@@ -1072,7 +1110,7 @@ func ExtBegin() {
 }
 
 func ExtEnd() {
-	s := cur
+	s := mine()
 	t := s.self()
 	s.mu.Lock()
 	if s.finished {
@@ -1101,7 +1139,7 @@ func ExtEnd() {
 // AwaitExternalReturn blocks the calling harness thread (keeping the token) until no thread is inside an OS
 // call any more: used right after the action that makes the call return (closing the socket).
 func AwaitExternalReturn() {
-	s := cur
+	s := mine()
 	for i := 0; ; i++ {
 		s.mu.Lock()
 		n := 0
@@ -1125,7 +1163,7 @@ func AwaitExternalReturn() {
 // blocks before the calling thread continues, and none of these steps is a choice point of the exploration.
 // When f returns the other threads are run to quiescence once more.
 func Setup(f func()) {
-	s := cur
+	s := mine()
 	t := s.self()
 	s.mu.Lock()
 	s.setup, s.setupT = true, t
@@ -1154,10 +1192,10 @@ func Setup(f func()) {
 }
 
 // SetKeyFn installs the harness-visible part of the global state key for the current execution.
-func SetKeyFn(f func() string) { cur.KeyFn = f }
+func SetKeyFn(f func() string) { mine().KeyFn = f }
 
 // Yield is a plain scheduling point for harness code.
-func Yield() { cur.point(&op{kind: opYield, site: site()}) }
+func Yield() { mine().point(&op{kind: opYield, site: site()}) }
 
 // ---- running one execution -----------------------------------------------------------------------------------
 
@@ -1203,21 +1241,7 @@ func Run(prefix []int, fireBudget, tickBudget, maxPoints int, body func()) Resul
 	s.mu.Lock()
 	defer s.mu.Unlock()
 	r := Result{Points: s.Points, Trace: s.Trace, Deadlock: s.Deadlock, Cycle: s.Cycle, Panics: s.Panics, Diverged: s.Diverged, Truncated: s.Truncated, Idle: s.idleAtEnd, Threads: len(s.threads)}
-	for _, t := range s.timers {
-		if t.armed {
-			r.Armed++
-		}
-	}
-	for _, t := range s.tickers {
-		if t.armed {
-			r.TickersOn++
-		}
-	}
-	for _, t := range s.threads {
-		if t.state != tDone {
-			r.Left++
-		}
-	}
+	r.Armed, r.TickersOn, r.Left = s.endArmed, s.endTickers, s.endLeft
 	return r
 }
 
